@@ -282,3 +282,5 @@ func tail(s string, n int) string {
 	}
 	return s
 }
+
+func osReadFile(p string) ([]byte, error) { return os.ReadFile(p) }
